@@ -157,6 +157,15 @@ pub struct World {
     /// the connection only becomes busy when the future returned by send_request is first polled
     /// (any async-block Connection implementation; hyper's enqueues inside the call)
     pub lazy_send: bool,
+    /// back-pressure: while closed, the transport's `poll_ready` answers Pending (a dial limiter,
+    /// a semaphore in front of the sockets); opening wakes whoever asked
+    pub transport_gate_closed: bool,
+    pub transport_wakers: Vec<Waker>,
+    /// the same for the service below the pool (the one that executes a request on its checked
+    /// out connection: a rate or concurrency limit placed there)
+    pub inner_gate_closed: bool,
+    pub inner_wakers: Vec<Waker>,
+    pub inner_ready_polls: u64,
 }
 
 impl World {
@@ -304,7 +313,12 @@ impl tower::Service<http::request::Parts> for SimTransport {
     type Error = DialError;
     type Future = DialFuture;
 
-    fn poll_ready(&mut self, _cx: &mut Context<'_>) -> Poll<Result<(), Self::Error>> {
+    fn poll_ready(&mut self, cx: &mut Context<'_>) -> Poll<Result<(), Self::Error>> {
+        let mut w = self.w.lock();
+        if w.transport_gate_closed {
+            w.transport_wakers.push(cx.waker().clone());
+            return Poll::Pending;
+        }
         Poll::Ready(Ok(()))
     }
 
@@ -659,6 +673,14 @@ impl tower::Service<ExecuteRequest<Pooled<SimConn, SimBody>, SimBody>> for RecSv
     >>::Future;
 
     fn poll_ready(&mut self, cx: &mut Context<'_>) -> Poll<Result<(), Self::Error>> {
+        {
+            let mut w = self.w.lock();
+            w.inner_ready_polls += 1;
+            if w.inner_gate_closed {
+                w.inner_wakers.push(cx.waker().clone());
+                return Poll::Pending;
+            }
+        }
         self.inner.poll_ready(cx)
     }
 
@@ -670,6 +692,26 @@ impl tower::Service<ExecuteRequest<Pooled<SimConn, SimBody>, SimBody>> for RecSv
         }
         self.inner.call(req)
     }
+}
+
+/// In what two origins differ, for the violation signature: scheme, host, port (one of them a
+/// default port left implicit: "default_port"), or user information.
+fn origin_difference(a: &str, b: &str) -> &'static str {
+    let (Ok(ua), Ok(ub)) = (a.parse::<http::Uri>(), b.parse::<http::Uri>()) else { return "unparsable" };
+    if ua.scheme_str() != ub.scheme_str() {
+        return "scheme";
+    }
+    if ua.host() != ub.host() {
+        return "host";
+    }
+    if ua.port_u16() != ub.port_u16() {
+        let default = match ua.scheme_str() {
+            Some("https") | Some("wss") => 443,
+            _ => 80,
+        };
+        return if ua.port_u16().unwrap_or(default) == ub.port_u16().unwrap_or(default) { "default_port" } else { "port" };
+    }
+    "userinfo"
 }
 
 /// Invariants evaluated at every hand-off (C02, C05, C06).
@@ -688,7 +730,7 @@ fn on_handoff(w: &W, r: u32, c: usize) {
         w.flag(
             "C06",
             "cross_origin_handoff",
-            serde_json::json!({"kind": "origin_mismatch"}),
+            serde_json::json!({"kind": "origin_mismatch", "differs": origin_difference(&conn_origin, &req_origin)}),
             format!("request {} for {} was handed connection {} dialed for {}", r, req_origin, c, conn_origin),
         );
     }
